@@ -180,6 +180,17 @@ def uses_physical_prims(pkg):
     return False
 
 
+def same_named_externals(pkg):
+    """Two external modules of one name in different domains: legal VLSIR, but the netlisters
+    have a single namespace and refuse it by design."""
+    names = [e.name.name for e in pkg.ext_modules]
+    return len(names) != len(set(names))
+
+
+def netlistable(pkg):
+    return not uses_physical_prims(pkg) and not same_named_externals(pkg)
+
+
 def tool_acceptance(pkg):
     """from_proto and the spice / spectre netlisters accept the package."""
     import io
@@ -191,7 +202,7 @@ def tool_acceptance(pkg):
         h.from_proto(pkg)
     except Exception as e:  # noqa
         errs.append(f"from_proto rejects the package: {type(e).__name__}: {str(e)[:200]}")
-    if not uses_physical_prims(pkg):  # netlisters refuse generic physical primitives by design
+    if netlistable(pkg):  # netlisters refuse generic physical primitives and same-named externals by design
         for fmt in ("spice", "spectre"):
             try:
                 vlsirtools.netlist(pkg=pkg, dest=io.StringIO(), fmt=fmt)
